@@ -7,7 +7,7 @@ export GOFLAGS=-mod=mod GOPROXY=off GOSUMDB=off GOTOOLCHAIN=local
 S="$1"; W="$2"; M="$W/src/diagonal.works/b6"
 PKG=$(python3 -c "import json;print(json.load(open('$S/meta.json'))['demo_pkg_dir'])")
 RUN=$(python3 -c "import json;print(json.load(open('$S/meta.json'))['demo_run'])")
-cd "$W" && git checkout -q -- . && git clean -fdq -e out -e out2 -e out3 -e out4
+cd "$W" && git checkout -q -- . && git clean -fdq -e out -e out2 -e out3 -e out4 -e out5
 cp "$S/demo_test.go" "$M/$PKG/zz_seeded_demo_test.go"
 echo "== demo on the unchanged tree (must pass)"
 (cd "$M/$PKG" && timeout 600 go test -vet=off -count=1 -timeout 300s -run "$RUN" . 2>&1 | tail -3)
@@ -21,4 +21,4 @@ echo "== existing tests of touched packages with the change (must pass)"
 PKGS=$(git diff --name-only | grep '\.go$' | xargs -n1 dirname | sort -u | sed "s#^src/diagonal.works/b6#.#")
 rm -f "$M/$PKG/zz_seeded_demo_test.go"
 (cd "$M" && for p in $PKGS ${3:-}; do timeout 1500 go test -vet=off -count=1 -timeout 20m $p/ 2>&1 | tail -2; done)
-git checkout -q -- . && git clean -fdq -e out -e out2 -e out3 -e out4
+git checkout -q -- . && git clean -fdq -e out -e out2 -e out3 -e out4 -e out5
